@@ -1,25 +1,37 @@
 import LaytheVerif.Model.Repl
+import LaytheVerif.Model.ReplFibers
 /-!
 `drv_repl`: line protocol for the REPL compile model (C19).
 
 ```
 entry 0|1 [0|1]           start an entry (arguments: the parser accepts the line; the compiler proper does, default 1)
 decls a b | refs print a | fun NAME op... | script op... | calls f g      (ops: g:NAME s:NAME p i o; o = implicit superclass of a parent-less class)
+fchans s 2 ..             channels the script created (`s` = synchronous, else the capacity), in order
+fbody op,op,..            body of a function fibers are launched over (one line per body; template ids count from 1 over the session)
+fmain op,op,..            the script's channel / fiber operations (`s p v` send, `r p` receive, `c p` close, `L t a0 a1 ..` launch,
+                          `p v` print — the vocabulary of `drv_sched`; `p`, `a*` = channel numbers in creation order)
+fraises 0|1               the script ended with an uncaught runtime error
 end                       compile + run the entry in the session state, print one line
 reset                     forget the session
 ```
 Result line of an entry: `err:<kind>` or
 `ok|<fun>;<fun>;..|cache=<p>,<i>|faults=<fn>/<kind>/<id>/<len>,..` with `<fun> = name:syms:sites`
 (`syms` = D/G/S + slot, comma separated; `sites` = P/I + cache id), the script last; `cache` = the
-lengths of the module's cache vectors after the entry; `faults` = out-of-range accesses (provably none).
+lengths of the module's cache vectors after the entry; `faults` = out-of-range accesses (provably none);
+then `|fib=<end>;<events>;runq=<n>;parked=<n>;premature=<n>`: how `execute` ended on the scheduler model
+(`exit`, `raised`, `deadlock`, `error:<e>`, `panic:<assert>`, `fuel`), what the entry's fibers showed
+(`g<t>:<v|nil>` / `p<t>:<v>`, template 0 = the scripts), the length of the run queue and the number of
+fibers parked outside it after the entry, and the ghost count of D26 events.
 -/
 open LaytheVerif.Repl
+open LaytheVerif
 
 def emptyEntry : Entry := { syntaxOk := true, decls := [], refs := [], funs := [], script := [], calls := [] }
 
 structure DSt where
-  st : St := St.empty
+  sess : ReplFibers.Sess := ReplFibers.Sess.empty
   cur : Entry := emptyEntry
+  fcur : ReplFibers.FEntry := {}
 
 def globalsList : List String :=
   ["print", "Object", "Error", "assert", "assertEq", "List", "Map", "String", "Number", "Bool", "Nil", "exit", "clock",
@@ -42,19 +54,67 @@ def showSite : ROp → Option String
 def showFun (f : RFun) : String :=
   s!"{f.name}:{",".intercalate (f.ops.filterMap showSym)}:{",".intercalate (f.ops.filterMap showSite)}"
 
+/-! the scheduler half: the vocabulary of `drv_sched` -/
+
+def words (s : String) : List String := (s.splitOn " ").filter (· ≠ "")
+
+def parseFOp (s : String) : Option Sched.Op :=
+  match words s with
+  | ["s", p, v] => do pure (.send (← p.toNat?) (← v.toNat?))
+  | ["r", p] => do pure (.recv (← p.toNat?))
+  | ["c", p] => do pure (.close (← p.toNat?))
+  | ["p", v] => do pure (.print (← v.toNat?))
+  | "L" :: t :: args => do pure (.launch (← t.toNat?) (← args.mapM (·.toNat?)))
+  | _ => none
+
+def parseFBody (s : String) : List Sched.Op :=
+  ((s.splitOn ",").filter (fun x => words x ≠ [])).filterMap parseFOp
+
+def parseCap (s : String) : Option (Option Nat) :=
+  if s == "s" then some none else
+  match s.toNat? with
+  | some (k + 1) => some (some (k + 1))
+  | _ => none
+
+def showEvent : Sched.Event → String
+  | .got t (some v) => s!"g{t}:{v}"
+  | .got t none => s!"g{t}:nil"
+  | .printed t v => s!"p{t}:{v}"
+
+def showAssert : Sched.Assert → String
+  | .activate => "activate" | .sleep => "sleep" | .block => "block" | .unblock => "unblock" | .complete => "complete"
+
+def showErr : Sched.Err → String
+  | .sendClosed => "sendClosed" | .alreadyClosed => "alreadyClosed" | .noAccess => "noAccess"
+
+def showEnd : ReplFibers.End → String
+  | .none => "none" | .compileError => "compileError" | .exit => "exit" | .raised => "raised" | .deadlock => "deadlock"
+  | .error e => "error:" ++ showErr e | .panic a => "panic:" ++ showAssert a | .fuel => "fuel"
+
+def fuel : Nat := 6000
+
+def showFib (s : ReplFibers.Sess) : String :=
+  let vm := s.vm
+  let parked := ((List.range vm.fibers.length).filter fun i =>
+    ((vm.fiber i).state == .pending || (vm.fiber i).state == .blocked) && !vm.runq.contains i).length
+  let premature := (vm.trace.filter (fun | .premature _ => true | _ => false)).length
+  s!"fib={showEnd s.last};{" ".intercalate (vm.out.map showEvent)};runq={vm.runq.length};parked={parked};premature={premature}"
+
 def finish (d : DSt) : DSt × String :=
-  match compile globalsList d.st d.cur with
-  | .error .syntax => ({ d with cur := emptyEntry }, "err:syntax")
-  | .error (.duplicate n) => ({ d with cur := emptyEntry }, s!"err:duplicate:{n}")
-  | .error (.undeclared n) => ({ d with cur := emptyEntry }, s!"err:undeclared:{n}")
-  | .error .compiler => ({ d with cur := emptyEntry }, "err:compiler")
+  let next : DSt := { sess := ReplFibers.step fuel globalsList d.sess { c := d.cur, f := d.fcur }, cur := emptyEntry, fcur := {} }
+  if ReplFibers.hostDead d.sess then (next, "err:host-dead") else
+  match compile globalsList d.sess.st d.cur with
+  | .error .syntax => (next, "err:syntax")
+  | .error (.duplicate n) => (next, s!"err:duplicate:{n}")
+  | .error (.undeclared n) => (next, s!"err:undeclared:{n}")
+  | .error .compiler => (next, "err:compiler")
   | .ok c =>
-    let st' := step globalsList d.st d.cur
-    let newFaults := st'.faults.drop d.st.faults.length
+    let st' := next.sess.st
+    let newFaults := st'.faults.drop d.sess.st.faults.length
     let fs := c.funs ++ [{ name := "script", ops := c.script }]
     let ft := newFaults.map fun (a, b, x, y) => s!"{a}/{b}/{x}/{y}"
-    ({ st := st', cur := emptyEntry },
-     s!"ok|{";".intercalate (fs.map showFun)}|cache={c.propCount},{c.invCount}|faults={",".intercalate ft}")
+    (next,
+     s!"ok|{";".intercalate (fs.map showFun)}|cache={c.propCount},{c.invCount}|faults={",".intercalate ft}|{showFib next.sess}")
 
 partial def loop (h out : IO.FS.Stream) (d : DSt) : IO Unit := do
   let line ← h.getLine
@@ -64,16 +124,20 @@ partial def loop (h out : IO.FS.Stream) (d : DSt) : IO Unit := do
   | [] => loop h out d
   | ["reset"] => loop h out {}
   | ["entry", ok] =>
-    loop h out { d with cur := { syntaxOk := ok == "1", decls := [], refs := [], funs := [], script := [], calls := [] } }
+    loop h out { d with cur := { syntaxOk := ok == "1", decls := [], refs := [], funs := [], script := [], calls := [] }, fcur := {} }
   | ["entry", ok, cok] =>
     loop h out { d with cur := { syntaxOk := ok == "1", compilerOk := cok == "1", decls := [], refs := [], funs := [],
-                                 script := [], calls := [] } }
+                                 script := [], calls := [] }, fcur := {} }
   | "decls" :: xs => loop h out { d with cur := { d.cur with decls := xs } }
   | "refs" :: xs => loop h out { d with cur := { d.cur with refs := xs } }
   | "calls" :: xs => loop h out { d with cur := { d.cur with calls := xs } }
   | "fun" :: name :: ops =>
     loop h out { d with cur := { d.cur with funs := d.cur.funs ++ [{ name, ops := ops.filterMap parseOp }] } }
   | "script" :: ops => loop h out { d with cur := { d.cur with script := ops.filterMap parseOp } }
+  | "fchans" :: caps => loop h out { d with fcur := { d.fcur with chans := caps.filterMap parseCap } }
+  | "fbody" :: rest => loop h out { d with fcur := { d.fcur with bodies := d.fcur.bodies ++ [parseFBody (" ".intercalate rest)] } }
+  | "fmain" :: rest => loop h out { d with fcur := { d.fcur with main := parseFBody (" ".intercalate rest) } }
+  | ["fraises", b] => loop h out { d with fcur := { d.fcur with raises := b == "1" } }
   | ["end"] =>
     let (d', o) := finish d
     out.putStrLn o
